@@ -48,6 +48,15 @@ class Vfs:
         self.clock += 1
         self.mtimes[path] = self.clock
 
+    def mkfifo(self, path: str, data: str | bytes) -> None:
+        """A named pipe / character device with `data` waiting in it: exists, can be opened and read, is not a regular
+        file (what `cmd <(producer)`, /dev/stdin or /proc/self/fd/N give a program as a path)."""
+        path = posixpath.normpath(path)
+        self.mkdir(posixpath.dirname(path))
+        if isinstance(data, str):
+            data = data.encode("utf-8")
+        self.nodes[path] = ("p", data)
+
     def symlink(self, path: str, target: str) -> None:
         path = posixpath.normpath(path)
         self.mkdir(posixpath.dirname(path))
@@ -65,6 +74,8 @@ class Vfs:
                 out[k] = {"d": 1}
             elif v[0] == "f":
                 out[k] = {"f": v[1].decode("utf-8", "replace")}
+            elif v[0] == "p":
+                out[k] = {"p": v[1].decode("utf-8", "replace")}
             else:
                 out[k] = {"l": v[1]}
         return {"cwd": self.cwd, "nodes": out}
@@ -77,6 +88,8 @@ class Vfs:
                 v.nodes[k] = ("d",)
             elif "f" in n:
                 v.nodes[k] = ("f", n["f"].encode("utf-8"))
+            elif "p" in n:
+                v.nodes[k] = ("p", n["p"].encode("utf-8"))
             else:
                 v.nodes[k] = ("l", n["l"])
         return v
@@ -116,7 +129,7 @@ class Vfs:
                 base = tgt if tgt.startswith("/") else posixpath.join(cur, tgt)
                 rest = "/".join(parts[i:])
                 return self._resolve(posixpath.join(base, rest) if rest else base, follow_last, depth + 1)
-            if node[0] == "f" and i < len(parts):
+            if node[0] in ("f", "p") and i < len(parts):
                 exists = False
             cur = nxt
         return cur, exists
@@ -169,6 +182,8 @@ class Vfs:
             mode, size = st.S_IFDIR | 0o755, 4096
         elif node[0] == "l":
             mode, size = st.S_IFLNK | 0o777, len(node[1])
+        elif node[0] == "p":
+            mode, size = st.S_IFIFO | 0o600, 0
         else:
             mode, size = st.S_IFREG | 0o644, len(node[1])
         mt = self.mtimes.get(r, 1_700_000_000)
